@@ -127,7 +127,7 @@ theorem C04_end_to_end_traced_partial (c : Trace.Code) (O : Trace.Options) (ext 
 can be walked and mapped within the pass budget, `from_type` returns a schema, serializing any batch of well-typed values in
 scope against it succeeds, and reading everything back returns the batch, normalised.
 `_partial`, exactly because of `hext` (the external chrono parsers return values in range: asked unconditionally by
-`Props.C01.C03_wf'`, irrelevant for traced schemas, which have no temporal column) and `hphys` in the conclusion
+`Props.C01.C03_wfS'`, irrelevant for traced schemas, which have no temporal column) and `hphys` in the conclusion
 (`Read.physical`: the value count of a Dictionary column fits `i64` — true of any array in memory, not derivable for Lean's
 unbounded lists).  Everything else is a decidable condition on type × options (`fragE`, `sized`, `walkable`, `mappable`;
 NO `Safe` / `safeFs`), the documented exclusion `inScopeO` on the values, the pass budget and the capacity bound. -/
